@@ -629,15 +629,19 @@ func classifyDepth(p *Prog, o *Org, depth int) []Src {
 		}
 	}
 	for _, a := range o.Alts() {
-		if a.K == "call" && a.R != nil && a.Idx <= 0 && depth < 4 {
+		if a.K == "call" && a.R != nil && depth < 4 {
 			if call, ok := a.V.(*ssa.Call); ok {
-				if sc := staticCallee(call.Common()); sc != nil && InRepo(sc) && sc.Blocks != nil && sc.Signature.Results().Len() >= 1 {
+				ridx := a.Idx
+				if ridx < 0 {
+					ridx = 0
+				}
+				if sc := staticCallee(call.Common()); sc != nil && InRepo(sc) && sc.Blocks != nil && sc.Signature.Results().Len() > ridx {
 					nr := a.R.Bind(sc, call)
 					n := 0
 					allInstrs(sc, func(in ssa.Instruction) {
-						if ret, ok := in.(*ssa.Return); ok && len(ret.Results) > 0 {
+						if ret, ok := in.(*ssa.Return); ok && len(ret.Results) > ridx {
 							n++
-							for _, s := range classifyDepth(p, nr.Of(ret.Results[0]), depth+1) {
+							for _, s := range classifyDepth(p, nr.Of(ret.Results[ridx]), depth+1) {
 								add(s)
 							}
 						}
@@ -698,8 +702,30 @@ func groupOf(a *Org) (regex string, group string, ok bool) {
 		return "", "", false
 	}
 	base, idx := a.Sub[0], a.Sub[1]
+	if base.K == "call" && base.Name != "(*regexp.Regexp).FindStringSubmatch" {
+		// the match slice handed out by a repository helper (nil
+		// alternatives cannot be indexed and are ignored)
+		var found *Org
+		for _, d := range Deref(base, 0) {
+			if d.K == "call" && d.Name == "(*regexp.Regexp).FindStringSubmatch" {
+				if found != nil && found.V != d.V {
+					return "", "", false
+				}
+				found = d
+			} else if !(d.K == "const" && d.Name == "nil") {
+				return "", "", false
+			}
+		}
+		if found == nil {
+			return "", "", false
+		}
+		base = found
+	}
 	if base.K != "call" || base.Name != "(*regexp.Regexp).FindStringSubmatch" {
 		return "", "", false
+	}
+	if ds := Deref(idx, 0); len(ds) == 1 {
+		idx = ds[0]
 	}
 	rg := regexGlobalOfArg(base, 0)
 	if rg == "" {
